@@ -15,7 +15,8 @@ from dataclasses import dataclass, field, make_dataclass
 from typing import Annotated, Any, Dict, FrozenSet, Iterable, List, Literal, Mapping, NewType, Optional, Sequence, Set, Tuple, Union
 
 from adaptix import ProviderNotFoundError
-from adaptix.conversion import allow_unlinked_optional, get_converter
+from adaptix import P
+from adaptix.conversion import ConversionRetort, allow_unlinked_optional, forbid_unlinked_optional, get_converter
 
 from ..adx import attempt
 
@@ -361,6 +362,94 @@ def check_policies(ctx):
             ctx.violation(f"policy:{name}:refusal-is-{type(made.exc).__name__}", f"{name}: {made.exc!r}", {})
 
 
+@dataclass
+class _PSN:
+    k: int
+
+
+@dataclass
+class _PS:
+    a: int
+    n: _PSN
+
+
+@dataclass
+class _PSb:
+    a: int
+    n: _PSN
+    b: int
+
+
+@dataclass
+class _PDN:
+    k: int
+    z: int = 7
+
+
+@dataclass
+class _PD:
+    a: int
+    n: _PDN
+    b: int = 5
+    c: List[int] = field(default_factory=list)
+
+
+# predicate (built anew for every use) -> the unlinked optional destination fields it matches
+_POLICY_PREDS = [
+    ("<all>", lambda: (), {"b", "c", "z"}), ("'b'", lambda: ("b",), {"b"}), ("'c'", lambda: ("c",), {"c"}), ("'z'", lambda: ("z",), {"z"}),
+    ("P[D].b", lambda: (P[_PD].b,), {"b"}), ("P[DN].z", lambda: (P[_PDN].z,), {"z"}), ("P[D].z", lambda: (P[_PD].z,), set()), ("int", lambda: (int,), {"b", "z"}),
+    ("List[int]", lambda: (List[int],), {"c"}), ("'b','z'", lambda: ("b", "z"), {"b", "z"}), ("P.b|P.c", lambda: (P.b | P.c,), {"b", "c"}), ("'nope'", lambda: ("nope",), set()),
+    ("P[D].n.z", lambda: (P[_PD].n.z,), {"z"}), ("str", lambda: (str,), set()),
+]
+
+
+def check_policy_order(ctx, rng):
+    """Unlinked optional destination fields (top level, default factory, inside a nested model) under a random sequence of allow / forbid
+    policies split between the per-call recipe and the retort's recipe: for each field the FIRST matching policy decides (per-call recipe
+    before the retort's), the default is forbid, and a converter exists iff every unlinked optional field is allowed."""
+    n = rng.randint(0, 4)
+    pols = [(rng.random() < 0.6, rng.choice(_POLICY_PREDS)) for _ in range(n)]
+    if rng.random() < 0.45:
+        pols.append((True, _POLICY_PREDS[0]))   # a closing allow-everything keeps the allowed outcomes frequent; the forbids before it must still win
+        n += 1
+    cut = rng.randint(0, n)
+    src = rng.choice([_PS, _PS, _PSb])
+    unlinked = {"c", "z"} | ({"b"} if src is _PS else set())
+    verdict = {}
+    for f in unlinked:
+        verdict[f] = False
+        for allow, (_, _, matches) in pols:
+            if f in matches:
+                verdict[f] = allow
+                break
+    should = all(verdict.values())
+    build = lambda items: [(allow_unlinked_optional if allow else forbid_unlinked_optional)(*mk()) for allow, (_, mk, _) in items]  # noqa: E731
+    label = " ; ".join(("allow" if a else "forbid") + "(" + lbl + ")" for a, (lbl, _, _) in pols[:cut]) + " || " + " ; ".join(("allow" if a else "forbid") + "(" + lbl + ")" for a, (lbl, _, _) in pols[cut:])
+    api = rng.choice(["retort.get_converter", "retort.convert"])
+    retort = ConversionRetort(recipe=build(pols[cut:]))
+    value = src(1, _PSN(2), 9) if src is _PSb else src(1, _PSN(2))
+    if api == "retort.convert":
+        made = attempt(retort.convert, value, _PD, recipe=build(pols[:cut]))
+    else:
+        made = attempt(retort.get_converter, src, _PD, recipe=build(pols[:cut]))
+    ctx.evaluated(("policy-order", label, src.__name__, api), nontrivial=n > 0)
+    ctx.count("policy_order_cases")
+    ctx.count("policy_order_" + ("allowed" if should else "refused"))
+    info = {"recipe (per-call || retort)": label, "src": src.__name__, "expected": verdict, "api": api}
+    if should:
+        if made.kind != "ok":
+            ctx.violation("policy-order:allowed-fields-refused", f"{label} [{src.__name__}, {api}]: {made.exc!r}", info)
+            return
+        out = made.value if api == "retort.convert" else attempt(made.value, value).value
+        want = _PD(1, _PDN(2), 9 if src is _PSb else 5, [])
+        if out != want:
+            ctx.violation("policy-order:wrong-result", f"{label} [{src.__name__}, {api}]: {out!r} != {want!r}", info)
+    elif made.kind == "ok":
+        ctx.violation("policy-order:forbidden-unlinked-field-accepted", f"{label} [{src.__name__}, {api}]: a converter was produced although {sorted(f for f, v in verdict.items() if not v)} are forbidden", info)
+    elif not isinstance(made.exc, ProviderNotFoundError):
+        ctx.violation(f"policy-order:refusal-is-{type(made.exc).__name__}", f"{label}: {made.exc!r}", info)
+
+
 def run_exhaustive(ctx):
     names = [n for n, _, _ in POOL]
     wrappers = ["plain"] if ctx.tier == "quick" else list(WRAPPERS)
@@ -385,6 +474,8 @@ def run_case(ctx, rng, idx):
         if idx < 1:
             ctx.sample({"src": s, "dst": d, "wrapper": w, "documented_coercible": coercible(desc(WRAPPERS[w][0](BY_NAME[s][0])), desc(WRAPPERS[w][0](BY_NAME[d][0])))})
         check_pair(ctx, s, d, w)
+    for _ in range(6):
+        check_policy_order(ctx, rng)
 
 
 def _witness(ctx):
